@@ -85,4 +85,14 @@ def passing {V E R} : List (Doc V E R) → List V
 /-- number of documents whose validation fails -/
 def failingCount {V E R} (ds : List (Doc V E R)) : Nat := (ds.filter (fun d => !d.passes)).length
 
+/-- the location map of ONE document on its own: a fresh recorder run over that document's traversal -/
+def docMap {α} (visit : Visit α) : Map α := (record visit { current := [], map := [] }).2.map
+
+/-- what a document contributes to a validating loop, as a function of THAT document alone -/
+def DocR.alone {α V E P} : DocR α V E P → Doc V E (P × Map α)
+  | .skip => .skip
+  | .deErr e => .deErr e
+  | .value v _ none => .value v none
+  | .value v visit (some p) => .value v (some (p, docMap visit))
+
 end SaphyrVerif.PathMap
